@@ -796,3 +796,18 @@ Definition xcase := (kind * bool * N * bool * nat * N)%type.
 Definition check_xcase (c : xcase) : bool :=
   let '(k, has, typ, nohdr, depth, h) := c in
   enum_small depth k has typ nohdr [] 0 =? h.
+
+(* hellos: the one strict prefix of an encoding that is accepted ends after the fixed part;
+   what is decoded there is the message without any extension *)
+Definition strip_exts (m : msg) : msg :=
+  match m with
+  | MSH v r s c k _ => MSH v r s c k init_sh
+  | MCH v r s su c _ => MCH v r s su c (init_ch su)
+  | _ => m
+  end.
+Definition hello_base_enc (m : msg) : option bytes :=
+  match m with
+  | MSH v r s c k _ => enc f_sh_base (sh_base v r s c k)
+  | MCH v r s su c _ => enc f_ch_base (ch_base v r s su c)
+  | _ => None
+  end.
